@@ -170,7 +170,14 @@ impl Oplog {
                         get_slices_checked(&existing, OplogSlot::Entries as usize)?.1;
                     let mut entries: Vec<Entry> = Vec::new();
                     let mut partials: Vec<bool> = Vec::new();
+                    // Entries belong to the current header only if they carry its header
+                    // bit; anything else is a leftover from before the last flush whose
+                    // truncation did not happen.
+                    let current_header_bit = outcome.oplog.get_current_header_bit();
                     while let Some(entry_outcome) = Self::validate_leader(entries_buff)? {
+                        if entry_outcome.header_bit != current_header_bit {
+                            break;
+                        }
                         let res = Entry::decode(entry_outcome.state)?;
                         entries.push(res.0);
                         entries_buff = res.1;
